@@ -34,14 +34,14 @@ from simkit.rng import seed_globals  # noqa: E402
 from simkit.world import InvalidScenario, Monitor, Violation, result, run_sim  # noqa: E402
 
 PROPERTY = "C10"
-RUNS = {"quick": 6000, "thorough": 1_000_000}
+RUNS = {"quick": 8000, "thorough": 1_000_000}
 WALL = {"quick": 50, "thorough": 1500}
 BATCH = {"quick": 50, "thorough": 500}
 SELFTEST_RUNS = 12
 RULE = (
     "each case = one limiter configuration (RateLimitedEntity with token/leaky/sliding/fixed/adaptive policy and generated "
     "parameters incl. window sizes that are not exact in binary and rates 3, 7, 0.3; queue capacity 0/default/small; or an "
-    "Inductor, 1-3 DistributedRateLimiters on one KVStore, or a NullRateLimiter) plus an arrival program of 3-150 requests "
+    "Inductor, 1-3 DistributedRateLimiters on one KVStore, or a NullRateLimiter) plus an arrival program of 3-200 requests "
     "(segments: dense, sparse, burst at one instant, 0-2 ns adjacent, aligned to window boundaries -2..+2 ns, exactly one "
     "period apart +-1 ns, placed at now+time_until_available +-1 ns) delivered pre-run or by an in-run driver (early or late "
     "event creation, which decides same-instant arrival/poll order), adaptive feedback sequence and delay; non-trivial = >= 3 "
@@ -96,7 +96,10 @@ EXPECTED_PROBES = [
     "probe.tua_zero_checked", "probe.tua_positive_checked", "probe.tua_guard_1ns", "probe.wait_iteration_multi_step",
     "probe.adaptive_rate_changed", "probe.adaptive_hit_min", "probe.adaptive_hit_max", "probe.adaptive_feedback_delayed",
     "probe.burst_same_instant", "probe.distributed_overlapping_requests", "probe.distributed_rejected",
-    "probe.distributed_sequential_bound_checked", "probe.inductor_queued", "probe.large_base_offset",
+    "probe.distributed_sequential_bound_checked", "probe.distributed_sequential_bound_checked_with_latency",
+    "probe.distributed_latency_forward_delivered", "probe.fixed_boundary_poll_drained",
+    "probe.fixed_inexact_window_boundary_poll_drained", "probe.inductor_subns_interval_poll_drained",
+    "probe.inductor_queued", "probe.large_base_offset",
 ]
 SHRINK_SKIP = ("kind", "type", "mode")
 
@@ -148,7 +151,7 @@ def _gen_n(rng, tier):
         return rng.randint(3, 40)
     if r < 0.9:
         return rng.randint(40, 100)
-    return rng.randint(100, 150)
+    return rng.randint(100, 200)
 
 
 def _gen_policy(rng, ptype, avoid):
@@ -161,7 +164,7 @@ def _gen_policy(rng, ptype, avoid):
     if ptype == "sliding":
         return {"type": "sliding", "window": rng.choice(WINDOWS), "max": rng.choice([1, 1, 2, 3, 5, 10])}
     if ptype == "fixed":
-        return {"type": "fixed", "window": rng.choice(EXACT_WINDOWS if avoid else WINDOWS), "n": rng.choice([1, 1, 2, 3, 5])}
+        return {"type": "fixed", "window": rng.choice(WINDOWS + EXACT_WINDOWS[:3]), "n": rng.choice([1, 1, 2, 3, 5])}
     w = rng.choice([1.0, 1.0, 0.5, 2.0, 0.1, 0.3])
     mn = {1.0: [1.0, 2.0, 5.0], 0.5: [2.0, 3.0, 10.0], 2.0: [0.5, 1.0, 3.0], 0.1: [10.0, 20.0, 50.0],
           0.3: [4.0, 5.0, 10.0]}[w]
@@ -185,11 +188,10 @@ def gen(rng, tier):
         #  noqueue     queue_capacity 0: nothing is ever queued, so nothing can be overtaken and no poll runs
         #  late-single arrivals are created at their own instant (a poll due then runs first) and the policy frees one
         #              slot at a time, so no arrival ever finds a free slot while requests wait
-        #  exactwin    (fixed window only) window sizes exact in binary: the float window arithmetic is exact
-        # every avoidance family of the fixed-window policy uses binary-exact windows
+        # (the former "exactwin" family only dodged the fixed-window float defect, repaired in 08d61f0: folded back)
         avoid = ""
-        if rng.random() < (0.5 if ptype == "fixed" else 0.3):
-            avoid = rng.choice(["noqueue", "late-single"] + (["exactwin"] if ptype == "fixed" else []))
+        if rng.random() < 0.4:
+            avoid = rng.choice(["noqueue", "late-single", "late-single"])
             if ptype == "adaptive":
                 avoid = "noqueue"
         pol = _gen_policy(rng, ptype, bool(avoid))
@@ -220,24 +222,18 @@ def gen(rng, tier):
         period = rng.choice([1_000, 1_000_000, 10_000_000, 100_000_000])
         ops = _gen_ops(rng, n, period, period, allow_tua=False)
         qcap = rng.choice(QUEUE_CAPS)
-        avoid = rng.choice(["", "", "", "noqueue", "nospin"])
+        # (the former "nospin" family only dodged the sub-nanosecond poll spin, repaired in adf5aad: folded back)
+        avoid = rng.choice(["", "", "noqueue"])
         if avoid == "noqueue":
             qcap = 0          # nothing queued: nothing to overtake, no poll
-        elif avoid == "nospin":
-            # the smoothed interval can only fall below 1 ns (poll re-armed at now+0) after it was seeded by a zero or
-            # nanosecond gap: keep every gap either 0 or >= 1 us and the first two arrivals apart
-            ops = [o if o["k"] == "g" else {"k": "g", "v": period} for o in ops]
-            for i, o in enumerate(ops):
-                if 0 < o["v"] < 1_000 or (i == 1 and o["v"] == 0):
-                    o["v"] = 1_000 + o["v"]
         return {"kind": "inductor", "seed": seed, "avoid": avoid, "tau": rng.choice([0.001, 0.01, 0.1, 1.0, 5.0]),
                 "queue_cap": qcap, "mode": rng.choice(["prerun", "chain", "chain_late"]),
                 "base_ns": base, "ops": ops}
     if r < 0.96:
         k = rng.randint(1, 3)
         w = rng.choice([0.1, 0.3, 1.0, 0.25, 0.5])
-        lat = rng.choice([(0.0, 0.0), (0.0, 0.0), (0.0, 0.0), (0.001, 0.001), (0.0002, 0.0005), (0.0, 0.001), (0.001, 0.0)])
-        period = rng.choice([round(w * NS) // 4, round(w * NS) // 20, 1_000_000])
+        lat = rng.choice([(0.0, 0.0), (0.001, 0.001), (0.001, 0.001), (0.0002, 0.0005), (0.0, 0.001), (0.001, 0.0), (0.01, 0.02)])
+        period = rng.choice([round(w * NS) // 4, round(w * NS) // 20, 1_000_000, 5_000_000, 40_000_000])
         ops = _gen_ops(rng, min(n, 80), max(1, period), round(w * NS), allow_tua=False)
         for o in ops:
             o["to"] = rng.randrange(k)
@@ -502,6 +498,12 @@ class _QueueingRun:
                 self.pending.append((t, self.refq.popleft(), "poll"))
                 self.denied_at = (-1, 0)
                 self.poll_fwd_at[t] += 1
+                if self.info is not None and self.info["type"] == "fixed" and t % self.win == 0:
+                    self.flags["fixed_boundary_drain"] = 1
+                    if not float(self.win / NS / 0.0625).is_integer():
+                        self.flags["fixed_inexact_boundary_drain"] = 1
+                if self.kind == "inductor" and self.lim.estimated_rate > 1e9:
+                    self.flags["inductor_subns_drain"] = 1
                 if self.poll_fwd_at[t] == 2:
                     self.flags["multi_drain"] = 1
             elif d == (0, 0, 0, 0) and dd == 0:
@@ -666,6 +668,9 @@ def _run_queueing(sc):
         "probe.adaptive_rate_changed": fl["rate_changed"], "probe.adaptive_hit_min": fl["hit_min"],
         "probe.adaptive_hit_max": fl["hit_max"], "probe.adaptive_feedback_delayed": fl["fb_delayed"],
         "probe.large_base_offset": int(h.base >= 1000 * NS),
+        "probe.fixed_boundary_poll_drained": fl["fixed_boundary_drain"],
+        "probe.fixed_inexact_window_boundary_poll_drained": fl["fixed_inexact_boundary_drain"],
+        "probe.inductor_subns_interval_poll_drained": fl["inductor_subns_drain"],
         "checks.tua_zero": pr.n_zero if pr else 0, "checks.tua_positive": pr.n_pos if pr else 0,
         "checks.tua_no_acquire_samples": pr.samples if pr else 0,
         "requests.delivered": len(h.arrived), "requests.forwarded": len(h.sink_log), "requests.dropped": len(h.dropped),
@@ -721,7 +726,7 @@ class _DistRun:
         self.prev = {i: (0, 0, 0) for i in range(k)}
         self.sink_log = []
         self.seen = set()
-        self.decided_fwd = collections.Counter()   # per limiter index
+        self.decided = {}          # rid -> instant at which the limiter counted it as forwarded
         self.flags = collections.Counter()
         self.open = 0
 
@@ -745,8 +750,16 @@ class _DistRun:
         to = self.arrived[rid][0]
         if self.sink_of[id(self.lims[to])] is not sink:
             raise Violation("C10/forward-wrong-downstream/DistributedRateLimiter/sink", f"request {rid} sent to the wrong downstream")
+        if rid not in self.decided:
+            raise Violation("C10/forward-without-accounting/DistributedRateLimiter/sink",
+                            f"downstream received request {rid} at t={now}ns before the limiter counted it as forwarded")
+        if self.decided[rid] != now:
+            raise Violation("C10/forward-wrong-time/DistributedRateLimiter/after-store-round-trip",
+                            f"request {rid} admitted at t={self.decided[rid]}ns (arrived {self.arrived[rid][1]}ns) reached the downstream at t={now}ns")
         self.seen.add(rid)
         self.sink_log.append((now, rid))
+        if now > self.arrived[rid][1]:
+            self.flags["delivered_after_round_trip"] = 1
         return None
 
     def on_delivery(self, ev, mon):
@@ -778,8 +791,13 @@ class _DistRun:
                             f"one delivery changed (forwarded, dropped) by {d[1:]}")
         if done:
             self.open -= 1
+            rid = ev.context.get("rid")
             if d[2]:
                 self.flags["rejected"] = 1
+            else:
+                self.decided[rid] = t
+                if t > self.arrived[rid][1]:
+                    self.flags["fwd_after_round_trip"] = 1
 
     def final(self, status):
         tot_r = tot_f = tot_d = 0
@@ -809,6 +827,8 @@ class _DistRun:
             if b:
                 return (f"C10/bound/DistributedRateLimiter/sequential-{b[0]}", b[1])
             self.flags["sequential_bound_checked"] = 1
+            if self.sc.get("read_lat", 0) or self.sc.get("write_lat", 0):
+                self.flags["sequential_bound_checked_latency"] = 1
         return None
 
 
@@ -835,6 +855,8 @@ def _run_distributed(sc):
     klass = f"distributed/{'latency' if lat else 'zero-latency'}"
     counters = {"probe.distributed_overlapping_requests": h.flags["overlap"], "probe.distributed_rejected": h.flags["rejected"],
                 "probe.distributed_sequential_bound_checked": h.flags["sequential_bound_checked"],
+                "probe.distributed_sequential_bound_checked_with_latency": h.flags["sequential_bound_checked_latency"],
+                "probe.distributed_latency_forward_delivered": h.flags["delivered_after_round_trip"],
                 "probe.large_base_offset": int(h.base >= 1000 * NS),
                 "requests.delivered": len(h.arrived), "requests.forwarded": len(h.sink_log)}
     if sig:
